@@ -5,14 +5,16 @@ Property theorems only; helper lemmas live in `KrillModel.Pubd.Lemmas`.
 The model is `KrillModel/Pubd/{Content,Rrdp,Manager}.lean`; it is tied to
 `src/server/pubd/{content,rrdp,access,manager}.rs` by the `pubd` correspondence stream.
 
-Two statements of the property are *false* of the code and are proved in negated form with a
+One statement of the property is *false* of the code and is proved in negated form with a
 witness that replays on the implementation (see `known_findings.jsonl`):
 
 * F-C10-1 `isolation_fails_for_nested_handles`: handles may contain `/`, so `a` and `a/b` (and
-  `ta` and anything) have nested jails;
-* F-C10-2 `staging_refines_fails_scheme_case` / `publish_accepts_held_uri_scheme_case`: a URI
-  written with an upper-case scheme and a lower-case authority is equal (as `uri::Rsync`) to the
-  all-lower-case URI but is a different object key.
+  `ta` and anything) have nested jails.
+
+F-C10-2 (a URI written with an upper-case scheme and a lower-case authority was equal, as
+`uri::Rsync`, to the all-lower-case URI but a different object key) is repaired in the code
+(fix 0b03ffe5); the model follows the fixed code, `key_respects_uri_equality` states what the fix
+establishes and `pinned_key_splits_equal_uris` keeps the old behaviour as a counter-model.
 -/
 import KrillModel.Pubd.Lemmas
 namespace KM.Props.C10
@@ -85,10 +87,12 @@ theorem stage_touches_only_own (r : Rrdp) (h q : Handle) (d : Delta) (hq : q ≠
 
 /-! ## The list reply is the current content, staged changes included -/
 
-/-- `staging_refines` — for a delta that verifies against current ⊕ staged, names every URI at
-most once and uses canonical URIs, merging it into the staged elements has exactly the effect
-of applying it to current ⊕ staged; and the staged elements stay consistent with the published
-objects (so that the RRDP delta generated from them fits the published snapshot). -/
+/-- `staging_refines` — for a delta that verifies against current ⊕ staged and names every URI at
+most once, merging it into the staged elements has exactly the effect of applying it to
+current ⊕ staged; and the staged elements stay consistent with the published objects (so that
+the RRDP delta generated from them fits the published snapshot).  `AllCanon` only says that the
+URIs are well-formed rsync URIs (scheme `rsync` in any case – what the parser accepts); the
+case of scheme and authority is free (`key_respects_uri_equality`). -/
 theorem staging_refines (cur : Objs) (st : Staged) (jail : Uri) (d : Delta)
     (hwf : WfStaged cur st) (hcs : AllCanon st) (hcd : AllCanon d) (hnd : KeyNodup d)
     (hv : verifyDelta (objectsFor cur st) jail d = none) :
@@ -115,37 +119,31 @@ example : WfStaged [] [] ∧ AllCanon [] ∧
       [.publish ⟨rsyncLower, ⟨"h", 0⟩, ⟨"m", 0⟩, ["ca", "a.cer"], false⟩ ⟨1, 10⟩] = none :=
   ⟨WfStaged.nil _, (fun e he => nomatch he), by decide⟩
 
-/-- F-C10-2: without the restriction to canonical URIs the statement is false.  The publisher
-has staged `rsync://h/m/ca/a.cer`; it then publishes `RSYNC://h/m/ca/a.cer`.  The request
-verifies (the object key differs), but the staged entry is *replaced* (the URIs are equal as
-`uri::Rsync`): the first object is lost. -/
-theorem staging_refines_fails_scheme_case :
-    ∃ (cur : Objs) (st : Staged) (jail : Uri) (d : Delta),
-      WfStaged cur st ∧ KeyNodup d ∧ verifyDelta (objectsFor cur st) jail d = none ∧
-      ∃ k, (objectsFor cur (mergeNew st d)).get? k ≠ (applyDelta (objectsFor cur st) d).get? k := by
-  let u : Uri := ⟨rsyncLower, ⟨"h", 0⟩, ⟨"m", 0⟩, ["ca", "a.cer"], false⟩
-  let u' : Uri := ⟨⟨"rsync", 31⟩, ⟨"h", 0⟩, ⟨"m", 0⟩, ["ca", "a.cer"], false⟩
-  refine ⟨[], [.publish u ⟨1, 10⟩], ⟨rsyncLower, ⟨"h", 0⟩, ⟨"m", 0⟩, ["ca"], true⟩,
-    [.publish u' ⟨2, 10⟩], ⟨?_, ?_⟩, ?_, by decide, u, by decide⟩
-  · exact List.pairwise_singleton _ _
-  · intro e he
-    simp only [List.mem_singleton] at he
-    subst he
-    rfl
-  · exact List.pairwise_singleton _ _
+/-- The staged elements are keyed by `uri::Rsync` (equality `rsEq`), the published objects by
+`CurrentObjectUri` (`key`): for well-formed URIs the two agree (since fix 0b03ffe5). -/
+theorem key_respects_uri_equality (u v : Uri) (hu : u.canon = true) (hv : v.canon = true) :
+    rsEq u v = true ↔ key u = key v := by
+  rw [rsEq_iff_keyEq hu hv]
+  simp [keyEq]
 
-/-- F-C10-2, seen from `publish_iff`: with the URI equality of rpki-rs (scheme and authority
-case-insensitive) a *held* URI can be published again – the request is accepted although the
-published URI is not new. -/
-theorem publish_accepts_held_uri_scheme_case :
-    ∃ (objs : Objs) (jail : Uri) (u u' : Uri) (c c' : Content),
-      objs.get? (key u) = some c ∧ rsEq u u' = true ∧
-      verifyDelta objs jail [.publish u' c'] = none := by
-  refine ⟨[(⟨rsyncLower, ⟨"h", 0⟩, ⟨"m", 0⟩, ["ca", "a.cer"], false⟩, ⟨1, 10⟩)],
-    ⟨rsyncLower, ⟨"h", 0⟩, ⟨"m", 0⟩, ["ca"], true⟩,
-    ⟨rsyncLower, ⟨"h", 0⟩, ⟨"m", 0⟩, ["ca", "a.cer"], false⟩,
-    ⟨⟨"rsync", 31⟩, ⟨"h", 0⟩, ⟨"m", 0⟩, ["ca", "a.cer"], false⟩, ⟨1, 10⟩, ⟨2, 10⟩, ?_, ?_, ?_⟩ <;>
-    decide
+/-- An example with every case variant: upper-case scheme with lower-case authority included. -/
+example :
+    let u : Uri := ⟨rsyncLower, ⟨"h", 0⟩, ⟨"m", 0⟩, ["ca", "a.cer"], false⟩
+    let u' : Uri := ⟨⟨"rsync", 31⟩, ⟨"h", 0⟩, ⟨"m", 0⟩, ["ca", "a.cer"], false⟩
+    let u'' : Uri := ⟨⟨"rsync", 16⟩, ⟨"h", 1⟩, ⟨"m", 0⟩, ["ca", "a.cer"], false⟩
+    key u = key u' ∧ key u = key u'' ∧
+    verifyDelta [(key u, ⟨1, 10⟩)] ⟨rsyncLower, ⟨"h", 0⟩, ⟨"m", 0⟩, ["ca"], true⟩
+      [.publish u' ⟨2, 10⟩] = some (.present u') := by decide
+
+/-- COUNTER-MODEL OF THE PINNED TREE (F-C10-2, before fix 0b03ffe5): the object key of
+`RSYNC://h/m/ca/a.cer` differed from the key of `rsync://h/m/ca/a.cer` although the URIs are
+equal – a held URI could be published again and a staged element was silently replaced. -/
+theorem pinned_key_splits_equal_uris :
+    ∃ u v : Uri, u.canon = true ∧ v.canon = true ∧ rsEq u v = true ∧
+      keyPinned u ≠ keyPinned v ∧ key u = key v :=
+  ⟨⟨rsyncLower, ⟨"h", 0⟩, ⟨"m", 0⟩, ["ca", "a.cer"], false⟩,
+   ⟨⟨"rsync", 31⟩, ⟨"h", 0⟩, ⟨"m", 0⟩, ["ca", "a.cer"], false⟩, by decide, by decide, by decide,
+   by decide, by decide⟩
 
 /-! ## An RRDP update publishes exactly what was listed -/
 
